@@ -1746,7 +1746,8 @@ func c05ConcBody(res *kit.Result, tw *kit.TraceWriter) {
 				} else if k <= 8 || thorough {
 					lens = append(append([]int{}, small...), big...)
 				}
-				maxSeg := []int{0, 1460, 7, 65536}[rng.Intn(4)]
+				// segment sizes of the transport: small for few writers, whole writes for many
+				maxSeg := map[int]int{2: 7, 8: 1460, 32: []int{0, 65536, 1, 300}[rng.Intn(4)]}[k]
 				run := c05ConcRun{Kind: kind, K: k, Per: per, Buf: codeBuf, Lens: lens, MaxSeg: maxSeg, Seed: int64(rng.Intn(1 << 30))}
 				c05RunConc(res, tw, run)
 				if sampled < 3 && k == 8 {
